@@ -296,3 +296,95 @@ def check_functor(chk, f, siblings):
     if passed != want:
         probs.append(("wrong-default-functor", "`%s` without a functor delegates with `%s` (the standard mandates `%s`)" % (name, passed, want), deleg))
     return probs
+
+
+# ---- IT3 output-cursor typestate -----------------------------------------------------------------------------
+def output_cursors(f):
+    """parameters whose type is the function's return type and that are written through (`*p = ...`)"""
+    ret = (f.get("ret") or "").strip()
+    cands = [p["n"] for p in f["params"] if p["ty"].strip() == ret and p["n"]]
+    out = []
+    for n in cands:
+        for x in astx.all_exprs(f, into_lambdas=False):
+            if x.get("k") == "bin" and x["op"] == "=":
+                l = astx.strip_casts(x["l"])
+                if l is not None and l.get("k") == "un" and l["op"] == "*":
+                    t = astx.strip_casts(l["e"])
+                    while t is not None and t.get("k") in ("un", "paren") and t.get("op", "++") in ("++",):
+                        t = astx.strip_casts(t.get("e"))
+                    if t is not None and t.get("k") == "ref" and t.get("n") == n:
+                        out.append(n)
+                        break
+    return out
+
+
+def check_output(chk, f, rule="IT3"):
+    """The iterator returned by a copying/generating algorithm is one past the last element written: on every structural
+    path the cursor's state at `return cursor` is 'fresh' (advanced after its last write) unless nothing was written.
+    Returns None when the function has no output cursor, else ('ok', paths) | ('bad', (cursor, return node, path))"""
+    curs = output_cursors(f)
+    if not curs:
+        return None
+    bad = None
+    npaths = 0
+    for p in SP.paths(f["body"]):
+        npaths += 1
+        state = dict((c, "fresh") for c in curs)     # 'fresh' | 'written'
+        alias = {}
+
+        def visit(e):
+            if e is None or not isinstance(e, dict):
+                return
+            k = e.get("k")
+            if k == "lambda":
+                return
+            if k == "bin" and e["op"] == "=":
+                visit(e["r"])
+                l = astx.strip_casts(e["l"])
+                if l is not None and l.get("k") == "un" and l["op"] == "*":
+                    inner = astx.strip_casts(l["e"])
+                    if inner is not None and inner.get("k") == "un" and inner["op"] == "++":
+                        n = ref_name(inner["e"])
+                        if n in state:
+                            # *d++ = v : write then advance -> fresh ; *(++d) = v : advance then write -> written
+                            state[n] = "fresh" if inner.get("postfix") else "written"
+                            return
+                    n = ref_name(inner)
+                    if n in state:
+                        state[n] = "written"
+                        return
+                visit(e["l"])
+                ln, rn = ref_name(e["l"]), ref_name(e["r"])
+                if ln in state and rn not in state:
+                    state[ln] = "fresh"       # re-seated from a computed position (d = copy(...))
+                return
+            if k == "un" and e["op"] in ("++",):
+                n = ref_name(e["e"])
+                if n in state:
+                    state[n] = "fresh"
+                    return
+            if k == "bin" and e["op"] == "+=":
+                n = ref_name(e["l"])
+                if n in state:
+                    state[n] = "fresh"
+                    return
+            if k == "call":
+                for a in e["a"]:
+                    visit(a)
+                return
+            for c in astx.children(e):
+                visit(c)
+
+        for ev in p:
+            if ev[0] in ("cond", "backedge-cond", "expr"):
+                visit(ev[1])
+            elif ev[0] == "decl" and ev[1].get("init") is not None:
+                visit(ev[1]["init"])
+            elif ev[0] == "ret":
+                r = astx.strip_casts(ev[1]) if ev[1] is not None else None
+                n = ref_name(r) if r is not None else None
+                if n in state and state[n] == "written" and bad is None:
+                    bad = (n, ev[1], p)
+                elif r is not None:
+                    visit(r)
+    return ("ok", npaths) if bad is None else ("bad", bad)
